@@ -26,7 +26,10 @@ def configs(tier):
             dict(emitters=1, signals=1, listeners=2, slots=2, top=4, reactions=3, nest=3, dup=2),
             dict(emitters=2, signals=2, listeners=2, slots=1, top=4, reactions=2, nest=3),
             dict(emitters=2, signals=1, listeners=3, slots=1, top=4, reactions=3, nest=3),
-            dict(emitters=1, signals=2, listeners=2, slots=2, top=4, reactions=3, nest=4)]
+            dict(emitters=1, signals=2, listeners=2, slots=2, top=4, reactions=3, nest=4),
+            dict(emitters=1, signals=1, listeners=3, slots=1, top=6, reactions=2, nest=2),
+            dict(emitters=1, signals=1, listeners=3, slots=1, top=5, reactions=4, nest=3),
+            dict(emitters=2, signals=2, listeners=2, slots=1, top=5, reactions=2, nest=3)]
 
 def args_of(c):
     a = []
